@@ -65,7 +65,21 @@ fn require_task<C: Context>(c: &mut C, key: TaskKey, chk: OChk) -> Out {
 fn read_res<C: Context>(c: &mut C, key: ResKey, chk: RChk) -> Result<Option<Val>, SimErr> {
   match key.fam {
     0 => { let mut r = c.read(&R::<0>(key.id), chk)?; Ok(r.take()) }
-    _ => { let mut r = c.read(&R::<1>(key.id), chk)?; Ok(r.take()) }
+    1 => { let mut r = c.read(&R::<1>(key.id), chk)?; Ok(r.take()) }
+    2 => { let r = c.read(&MK::<2>(key.id), chk)?; Ok(r.copied()) }
+    3 => { let r = c.read(&MK::<3>(key.id), chk)?; Ok(r.copied()) }
+    _ => {
+      use std::io::{Read, Seek};
+      let path = file_path(key.id);
+      let mut r = c.read(&path, chk)?;
+      if r.is_directory() { return Ok(Some(-1)); }
+      let Some(f) = r.as_file() else { return Ok(None); };
+      let fresh = f.stream_position().map(|p| p == 0).unwrap_or(false);
+      log(Ev::ReaderUsed { res: key, reader: 0, fresh });
+      let mut text = String::new();
+      let _ = f.read_to_string(&mut text);
+      Ok(Some(text.trim().parse().unwrap_or(-2)))
+    }
   }
 }
 
@@ -73,6 +87,31 @@ fn write_fn(w: &mut SimWriter<'_>, key: ResKey, val: Option<Val>) -> Result<(), 
   log(Ev::WriteFnStart { res: key });
   tick();
   w.set(val);
+  tick();
+  log(Ev::WriteFnEnd { res: key, val });
+  Ok(())
+}
+
+fn map_write_fn<const F: u8>(w: &mut pie::resource::map::MapWriter<'_, MK<F>>, key: ResKey, val: Option<Val>) -> Result<(), std::convert::Infallible> {
+  log(Ev::WriteFnStart { res: key });
+  tick();
+  let old = w.get().copied();
+  match val { Some(v) => { w.insert(v); } None => { if let std::collections::hash_map::Entry::Occupied(e) = w.entry() { e.remove(); } } }
+  log(Ev::ResSet { res: key, old, new: val });
+  tick();
+  log(Ev::WriteFnEnd { res: key, val });
+  Ok(())
+}
+
+fn file_write_fn(f: &mut std::fs::File, key: ResKey, val: Option<Val>, old: Option<Val>) -> Result<(), pie::resource::file::FsError> {
+  use std::io::Write;
+  log(Ev::WriteFnStart { res: key });
+  tick();
+  match val {
+    Some(v) => { write!(f, "{v}").map_err(pie::resource::file::FsError::from)?; f.flush().map_err(pie::resource::file::FsError::from)?; }
+    None => { let _ = std::fs::remove_file(file_path(key.id)); }
+  }
+  log(Ev::ResSet { res: key, old, new: val });
   tick();
   log(Ev::WriteFnEnd { res: key, val });
   Ok(())
@@ -93,9 +132,39 @@ fn write_res<C: Context>(c: &mut C, key: ResKey, chk: RChk, val: Option<Val>, vi
       }
     }};
   }
+  macro_rules! go_map {
+    ($f:literal) => {{
+      let res = MK::<$f>(key.id);
+      if via {
+        {
+          let mut w = c.create_writer(&res).unwrap();
+          map_write_fn(&mut w, key, val).unwrap();
+        }
+        c.written_to(&res, chk)
+      } else {
+        c.write(&res, chk, |w| map_write_fn(w, key, val))
+      }
+    }};
+  }
   match key.fam {
     0 => go!(0),
-    _ => go!(1),
+    1 => go!(1),
+    2 => go_map!(2),
+    3 => go_map!(3),
+    _ => {
+      let path = file_path(key.id);
+      let old = file_val(&path);
+      if via {
+        {
+          log(Ev::ResWriteOpen { res: key });
+          let mut f = c.create_writer(&path).map_err(|_| SimErr(6100))?;
+          file_write_fn(&mut f, key, val, old).map_err(|_| SimErr(6101))?;
+        }
+        c.written_to(&path, chk)
+      } else {
+        c.write(&path, chk, |f| { log(Ev::ResWriteOpen { res: key }); file_write_fn(f, key, val, old) })
+      }
+    }
   }
 }
 
